@@ -78,6 +78,40 @@ Definition concat_shape (axis : Z) (cs : list (list Z)) : option (list Z) :=
           else None
       end
   end.
+(* ---- repaired evaluator (proposed_fixes/ready/C09_01_concat_zero_operand.diff): a zero-size operand is dropped only when its other dims are
+   KNOWN equal (same int / same name) to those of a reference operand that is kept: the first operand that is not
+   zero-size, or operand 0 when all are *)
+Definition keq_except (ax : nat) (a b : list dim) : bool :=
+  forallb2 same_dim (set_nth a ax (DInt 0)) (set_nth b ax (DInt 0)).
+Definition same_except_axis (axis : Z) (s r : option (list dim)) : bool :=
+  match s, r with
+  | Some a, Some b =>
+      Nat.eqb (List.length a) (List.length b) &&
+      match norm_axis (Z.of_nat (List.length a)) axis with Some ax => keq_except ax a b | None => false end
+  | _, _ => false
+  end.
+Fixpoint first_false (i : nat) (l : list bool) : option nat :=
+  match l with [] => None | b :: t => if b then first_false (S i) t else Some i end.
+Fixpoint kept_positions_fixed (axis : Z) (ref : nat) (rs : option (list dim)) (i : nat) (ops : list (option (list dim))) : list nat :=
+  match ops with
+  | [] => []
+  | s :: t => (if negb (has_zero_size axis s) || Nat.eqb i ref || negb (same_except_axis axis s rs) then [i] else [])
+              ++ kept_positions_fixed axis ref rs (S i) t
+  end.
+(* None = node kept; Some l = Identity / Concat of the operands at positions l (never empty) *)
+Definition concat_decision_fixed (axis : Z) (ops : list (option (list dim))) : option (list nat) :=
+  match ops with
+  | [_] => Some [O]
+  | _ => let zs := map (has_zero_size axis) ops in
+         if negb (existsb (fun b => b) zs) then None
+         else let ref := match first_false 0 zs with Some i => i | None => O end in
+              let k := kept_positions_fixed axis ref (nth ref ops None) 0 ops in
+              if Nat.eqb (List.length k) (List.length ops) then None else Some k
+  end.
+(* the shipped evaluator in the same observable form: Identity(inputs[0]) = position 0 *)
+Definition concat_decision_shipped (axis : Z) (ops : list (option (list dim))) : option (list nat) :=
+  match concat_decision axis ops with Some [] => Some [O] | d => d end.
+
 (* element level: a tensor of shape (outer.., a_i, inner..) is, per outer index, one block of a_i * inner elements;
    Concat appends the blocks of the operands *)
 Definition block_concat {V} (outer : nat) (ops : list (list (list V))) : list (list V) :=
@@ -147,6 +181,11 @@ Definition concat_case := (Z * list (option (list dim)) * option (list nat))%typ
 Definition opt_nats_eqb (a b : option (list nat)) : bool :=
   match a, b with Some x, Some y => forallb2 Nat.eqb x y | None, None => true | _, _ => false end.
 Definition concat_agrees (c : concat_case) : bool := let '(ax, ops, obs) := c in opt_nats_eqb (concat_decision ax ops) obs.
+(* 0 = the implementation agrees with both evaluators, 1 = only with the shipped one (refuted), 2 = only with the repaired
+   one, 3 = with neither *)
+Definition concat_code (c : concat_case) : nat :=
+  let '(ax, ops, obs) := c in
+  ((if opt_nats_eqb (concat_decision_fixed ax ops) obs then 0 else 1) + (if opt_nats_eqb (concat_decision_shipped ax ops) obs then 0 else 2))%nat.
 
 (* (data, transposed data, axis, fired): 0 = both checks agree with the implementation, 1 = only the `==` variant
    (refuted), 2 = only same_dim, 3 = neither *)
